@@ -860,7 +860,7 @@ def pipeline(chk, binary, cases, known, n_batches, batch_size, n_panic, n_fallba
     stats["model_ok"] = model_ok
     real = emit_real(binary, [c.source("t0") + "def main() -> None:\n    " + c.call("t0") + "\n" for c in cases])
     fails, corr_bad, rejected, dist = [], [], [], {}
-    usable = []
+    usable, suspects = [], []
     for i, c in enumerate(cases):
         r = real[i]
         if "panic" in r:
@@ -891,6 +891,8 @@ def pipeline(chk, binary, cases, known, n_batches, batch_size, n_panic, n_fallba
                 k = next((j for j in range(min(len(rc), len(m["codes"]))) if rc[j] != m["codes"][j]), min(len(rc), len(m["codes"])))
                 corr_bad.append({"case": describe(c), "tie": "emitted Rust tokens", "first_difference_at": k,
                                  "real": " ".join(r["fns"]["t0"]["body"]), "real_codes": rc[max(0, k - 6):k + 6], "model_codes": m["codes"][max(0, k - 6):k + 6]})
+                # the difference is explained on the real binary: does THIS function still behave as its source says?
+                suspects.append(i)
                 continue
         usable.append(i)
     stats["emit_text_compared"] = len(usable)
@@ -917,6 +919,9 @@ def pipeline(chk, binary, cases, known, n_batches, batch_size, n_panic, n_fallba
             layout[stem] = [("t%d" % i, i) for i in chunk]
         if fb and n_fallback:
             layout[tagp + "f0"] = [("t%d" % i, i) for i in fb[:n_fallback]]
+        sus = [i for i in suspects if model[i]["src"][1] == 0 and not model[i]["fallback"] and not model[i]["grouping"]][:60]
+        if sus:
+            layout[tagp + "m0"] = [("t%d" % i, i) for i in sus]
         for b, i in enumerate(pan[:n_panic]):
             layout["%sz%d" % (tagp, b)] = [("t%d" % i, i)]
         for stem, members in layout.items():
@@ -986,7 +991,7 @@ def pipeline(chk, binary, cases, known, n_batches, batch_size, n_panic, n_fallba
                           "rust_side_model": {"lines": exp_rust[0], "stop": STOPS.get(exp_rust[1])},
                           "classes": cls, "why": "the compiled program does not behave as the source says"})
             continue
-        if got != exp_rust and not m["fallback"]:
+        if got != exp_rust and not m["fallback"] and i not in suspects:
             corr_bad.append({"case": describe(c), "tie": "Rust-side model vs real binary", "real": got, "model": exp_rust})
     stats.update({"distribution": dist, "observed": len(observed), "known_hits": known_hits, "model": model})
     return fails, corr_bad, stats
